@@ -114,4 +114,45 @@ PROPS = {
         "partial": "proved for Default mode with Complete parameter (exact account) and per-entry truth for every parameter; MostRecent-N exactness, AllowMissingValues outside K2 and the late-stale-marker statement are decided by correspondence + oracle",
         "assumptions": ["as C06"],
     },
+    "C10": {
+        "coq_deps": ["ManagerFacts"],
+        "steps": [{"sub": "c10", "quick": [0], "thorough": [1], "timeout": 3000},
+                  {"sub": "mgr", "quick": [0], "thorough": [1]}],
+        "rule": "fault enumeration on the real code: every storage operation index k of a publish (inserts / updates / mixed / random shapes; cached and uncached manager; sequential and parallel insertion; both configurations) is made to fail; afterwards the SAME instance must report the previous epoch hash, serve verifying lookup/history/audit proofs for the previous state only, leave the database byte-identical (checked after letting detached tasks run), a fresh instance must agree, and the retry must end in the fault-free twin's database; the storage-manager model is tied by the operation-sequence correspondence with rejected writes (mgr step)",
+        "assumptions": ["faults are whole-call failures of the Database trait (the property's fault model); process crashes are C11"],
+    },
+    "C11": {
+        "coq_deps": ["StoreFacts", "DirFacts"],
+        "steps": [{"sub": "c11", "quick": [0], "thorough": [1], "timeout": 3000}],
+        "rule": "recorded commit batches of real publishes (create / split / update nodes): the model predicate commit_shape is evaluated on every record of the batch against the store before the publish (must be true: premise of the theorem), the tree reconstructed from raw records as of E, E+1 and E-1 by the model's version selection is compared with the implementation's (hook H2); crash points on the real code: every prefix of several orders and random subsets of the batch written to a copy of the pre-publish database, a second instance must serve the previous epoch (epoch hash, lookups, histories, audit verify) and, with the epoch record, the new epoch",
+        "assumptions": ["record-level atomicity of the storage (the property's premise); the epoch record is written last (checked on the recorded batch)"],
+    },
+    "C12": {
+        "coq_deps": ["Sched"],
+        "steps": [{"sub": "c12", "quick": [0], "thorough": [1], "timeout": 3000}],
+        "rule": "two and three publish calls on clones of one directory (shared label between batches; cached and uncached manager; both configurations) over gated storage: exhaustive schedules with one pre-emption pair (i, j) for two tasks (sampled in quick tier), random multi-pre-emption schedules for three; returned epochs must be distinct and consecutive, the final database must equal serial application in epoch order, every returned (epoch, hash) must be that epoch's hash and the audit over them must verify; the epochs handed out are also predicted by the protocol model run under the same schedule (c12 lines)",
+        "assumptions": ["each storage operation is atomic; pre-emption inside a storage operation and real multi-threading are not modelled (limit stated in DESIGN.md)"],
+    },
+    "C13": {
+        "coq_deps": ["StoreFacts"],
+        "steps": [{"sub": "c13", "quick": [0], "thorough": [1], "timeout": 3000},
+                  {"sub": "c11", "quick": [0], "thorough": [0], "timeout": 3000}],
+        "rule": "a reader request (lookup of two labels, key history, audit, epoch hash) interleaved with a publish under explicit schedules, on the writer instance, on a separate uncached instance and on a separate cached instance whose view lags storage by 0-3 epochs; every Ok answer must name an (epoch, root hash) pair the directory published and verify against it; the change poller must make later requests use an epoch at least as new as the signalled one; the version-selection model is tied by the store-level lines of the c11 step",
+        "assumptions": ["each storage operation is atomic; the read-fill / write-through race on one cache key (K3) is outside the schedules explored (see DESIGN.md)"],
+    },
+    "C14": {
+        "coq_deps": ["InsertFacts"],
+        "steps": [{"sub": "c14", "quick": [0], "thorough": [1], "timeout": 3000},
+                  {"sub": "dirs", "quick": [0], "thorough": [0], "featureset": "B"},
+                  {"sub": "c14", "quick": [0], "thorough": [0], "featureset": "B", "timeout": 3000}],
+        "rule": "one publish history per configuration run under parallelism {disabled, static 1/2/3/5/32, available-or-fallback} x cache {none, default, 2 ms lifetime, 600-byte limit} x {same object, re-created before every call + read-only wrapper}: epoch hashes, the stored state and every verification outcome / verified result must be identical to the sequential uncached run; the same leaf set inserted permuted, split into sub-batches of one epoch and through the auditor path must give the same root hash; the whole directory correspondence (dirs step) and the matrix are repeated with a second harness binary built WITHOUT the greedy_lookup_preload / preload_history / parallel_vrf features",
+        "assumptions": ["compile-time features are covered by two binaries, not by a theorem"],
+    },
+    "C20": {
+        "coq_deps": ["ManagerFacts", "DirFacts"],
+        "steps": [{"sub": "c20", "quick": [0], "thorough": [1], "timeout": 3000},
+                  {"sub": "dirs", "quick": [0], "thorough": [1]}],
+        "rule": "histories with a label updated in every epoch; tombstone cut-off at every epoch 0..current on a copy of the storage: epoch hash, audit proof, other labels' lookup and history proofs and (cut-off before the latest update) the label's own lookup must be structurally identical; the label's history must verify with AllowMissingValues to the same versions/epochs with tombstoned values empty, Default must reject exactly when the requested range (Complete, MostRecent 1/2/n) includes a tombstoned entry; publish-after-tombstone must equal tombstone-after-publish (database compared); the model's d_tombstone is tied by the dirs step (state, history proofs, both verification modes, further publish)",
+        "assumptions": [],
+    },
 }
